@@ -533,7 +533,32 @@ fn main() {
                         let fl = rand_flags(&mut r) & !0x1000;
                         let big = r.chance(1, 4);
                         let a = if r.chance(1, 6) { rand_args(&mut r, 16, true) } else { rand_args(&mut r, op, big) };
-                        let max = if r.chance(1, 5) { r.below(30000) } else { u64::MAX };
+                        let mut a = a;
+                        let mut max = if r.chance(1, 5) { r.below(30000) } else { u64::MAX };
+                        if r.chance(1, 6) && op != 60 {
+                            // the ORDER of the checks: an error condition (zero divisor in any spelling, pair operand,
+                            // oversized operand) together with a budget around the operator's cost
+                            let dividend = rand_arg(&mut r, false);
+                            let zero = match r.below(6) {
+                                0 => atom_json(&[]),
+                                1 => atom_json(&[0]),
+                                2 => atom_json(&[0, 0, 0]),
+                                3 => atom_json(&vec![0u8; 40]),
+                                4 => json!({"f": atom_json(&[1]), "r": atom_json(&[])}),
+                                _ => rand_arg(&mut r, true),
+                            };
+                            a = json!({"f": dividend, "r": {"f": zero, "r": atom_json(&[])}});
+                            max = match r.below(4) {
+                                0 => r.below(1400),
+                                1 => 900 + r.below(400),
+                                2 => r.below(8),
+                                _ => 1000 + r.below(3000),
+                            };
+                        } else if r.chance(1, 8) && op == 60 {
+                            let zero = if r.chance(1, 2) { atom_json(&[]) } else { atom_json(&[0, 0]) };
+                            a = json!({"f": rand_arg(&mut r, false), "r": {"f": small_int(r.below(5) as i64), "r": {"f": zero, "r": atom_json(&[])}}});
+                            max = r.below(40000);
+                        }
                         emit_call(&mut out, case, "num", &[op], &a, fl, max, None);
                         emit_call(&mut out, case, "malachite", &[op], &a, fl | 0x1000, max, Some(("same_as_prev", json!(true))));
                     }
